@@ -22,6 +22,7 @@ func Norm(fn *Fn, e ast.Expr) string {
 type normer struct {
 	fn   *Fn
 	info *types.Info
+	root *Fn // the function the rule works on when fn is a new helper reached from it (nil otherwise)
 }
 
 func (n *normer) expr(e ast.Expr, usePos token.Pos, depth int) string {
@@ -91,6 +92,35 @@ func (n *normer) ident(id *ast.Ident, usePos token.Pos, depth int) string {
 	if v.Pkg() != nil && v.Parent() == v.Pkg().Scope() {
 		return id.Name // package-level variable
 	}
+	// a variable of a new helper reached from the rule's function: parameters stand for their (unique)
+	// argument, locals are resolved inside the helper
+	top := n.fn
+	if n.root != nil {
+		top = n.root
+	}
+	if owner := ctxFn(top, v.Pos()); owner != nil && owner.Root() != top.Root() && top.P != nil {
+		if depth > 6 {
+			return "φ(" + id.Name + ")"
+		}
+		h := owner.Root()
+		if _, isParam := IsParam(h, v); isParam {
+			binds := top.P.HelperBinds(top)[v]
+			if len(binds) != 1 {
+				return "φ(" + id.Name + ")"
+			}
+			b := binds[0]
+			m := &normer{fn: b.Caller, info: b.Caller.Info()}
+			if b.Caller.Root() != top.Root() {
+				m.root = top
+			}
+			return m.expr(b.Arg, b.Call.Pos(), depth+1)
+		}
+		if owner == n.fn {
+			return n.identLocal(id, v, usePos, depth, "")
+		}
+		m := &normer{fn: owner, info: owner.Info(), root: top}
+		return m.identLocal(id, v, usePos, depth, "")
+	}
 	root := n.fn
 	base := ""
 	if i, isParam := IsParam(root, v); isParam {
@@ -110,6 +140,11 @@ func (n *normer) ident(id *ast.Ident, usePos token.Pos, depth int) string {
 			}
 		}
 	}
+	return n.identLocal(id, v, usePos, depth, base)
+}
+
+// identLocal resolves a local of n.fn by its latest straight-line definition before the use.
+func (n *normer) identLocal(id *ast.Ident, v *types.Var, usePos token.Pos, depth int, base string) string {
 	if depth > 6 {
 		return "φ(" + id.Name + ")"
 	}
